@@ -53,7 +53,7 @@ func implOpnd(o *insts.Operand) (enc.Opnd, string) {
 			return enc.Opnd{Kind: "s", Idx: int(t - insts.S0), W: w}, ""
 		case t >= insts.V0 && t <= insts.V255:
 			return enc.Opnd{Kind: "v", Idx: int(t - insts.V0), W: w}, ""
-		case t >= insts.Timp0 && t <= insts.Timp11:
+		case t >= insts.Timp0 && t <= insts.Timp15:
 			return enc.Opnd{Kind: "ttmp", Idx: int(t - insts.Timp0), W: w}, ""
 		}
 		switch t {
@@ -434,7 +434,17 @@ func (a *rtAgg) flush(report func(sig, msg string, c any)) {
 		if s.alsoCDNA3 {
 			also = " (also with the GFX9 encodings under IsCDNA3=true)"
 		}
-		report(k, fmt.Sprintf("%s\n%d descriptions of %d opcodes%s: %s", s.first, s.count, len(s.ops), also, list), s.c)
+		sig := k
+		if len(ops) <= 4 && !strings.Contains(k, "/undecodable/") {
+			// few opcodes: they are part of the signature, so that a listed
+			// finding about one opcode never hides the same symptom on another
+			var nums []string
+			for _, o := range ops {
+				nums = append(nums, strings.SplitN(o, ":", 2)[0])
+			}
+			sig = k + "/op" + strings.Join(nums, ",")
+		}
+		report(sig, fmt.Sprintf("%s\n%d descriptions of %d opcodes%s: %s", s.first, s.count, len(s.ops), also, list), s.c)
 	}
 }
 
@@ -531,6 +541,21 @@ func errClass(msg string) string {
 		return "buffer-too-short"
 	case strings.Contains(msg, "cannot find the instruction format"):
 		return "format-not-found"
+	case strings.Contains(msg, "cannot find Operand "):
+		// the operand code the decoder has no representation for is part of the
+		// signature, so that a listed code never hides another one
+		var n int
+		if _, err := fmt.Sscanf(msg[strings.Index(msg, "cannot find Operand ")+len("cannot find Operand "):], "%d", &n); err == nil {
+			switch {
+			case n >= 235 && n <= 239:
+				return "operand-code-235..239(aperture/pops)-not-representable"
+			case n == 249:
+				return "operand-code-249(sdwa)-not-representable"
+			case n == 254:
+				return "operand-code-254(lds_direct)-not-representable"
+			}
+			return fmt.Sprintf("operand-code-%d-not-representable", n)
+		}
 	}
 	return "other-error"
 }
